@@ -3,7 +3,7 @@ from collections import Counter
 
 from .. import render_common as rc
 from ..plain import Instance
-from ..runner import Result, Violation
+from ..runner import Result, Violation, case_hash
 from ..tikzcheck import Picture, TikzError
 
 ID = "C13"
@@ -95,6 +95,38 @@ def check(case):
         nontrivial = nontrivial or res.nontrivial
         n += 1
     return Result(nontrivial, ["walk", f"obj={len(inst.oleaves)}", f"mappings={'<=10' if n <= 10 else '<=100' if n <= 100 else '>100'}"], evals=2 * n)
+
+
+def _cli_draw(case, inst, counts, out):
+    import json
+    import os
+
+    from .. import pkg, stubs
+    from ..plain import parse_newick
+
+    data = pkg.guarded(out.to_dict)
+    for key in ("object_tree", "species_tree"):
+        data["input"][key] = parse_newick(data["input"][key]).to_newick(lengths=[1, 0.25, 3, 0, 12.5])
+    exp_counts = {"LEAF": len(inst.oleaves), "S": counts["S"], "D": counts["D"], "T": counts["T"], "LOSS": counts["L"]}
+    for orientation in ("vertical", "horizontal"):
+        with stubs.TempDir() as tmp:
+            src, dst = os.path.join(tmp, "rec.json"), os.path.join(tmp, "rec.tex")
+            with open(src, "w") as fh:
+                json.dump(data, fh)
+            with stubs.stub_tex(default=(14.0, 9.0)):
+                status, _o, err = stubs.run_cli(["draw", "--input", src, "--output", dst, "--orientation", orientation])
+            code = open(dst).read() if os.path.exists(dst) else ""
+        if status != 0:
+            raise Violation(f"cli.draw.{orientation}.status", observed={"status": status, "stderr": err[-300:]}, expected="status 0")
+        try:
+            pic = Picture(code)
+            got = {k: len(pic.nodes(s)) for k, s in (("LEAF", "extant gene"), ("S", "speciation"), ("D", "duplication"),
+                                                     ("T", "horizontal gene transfer"), ("LOSS", "loss"))}
+            arrows = len(pic.transfer_arrows())
+        except TikzError as exc:
+            raise Violation(f"cli.draw.{orientation}.{exc.clause}", observed=str(exc.detail)[:300], expected="well-formed TikZ")
+        if got != exp_counts or arrows != counts["T"]:
+            raise Violation(f"cli.draw.{orientation}.event-statement-counts", observed=dict(got, arrows=arrows), expected=dict(exp_counts, arrows=counts["T"]))
 
 
 def _check_mapping(case, inst, m, shared):
@@ -189,8 +221,14 @@ def _check_mapping(case, inst, m, shared):
             if hit is None:
                 raise Violation(f"tikz.{tag}.arrow-does-not-end-at-transferred-child", observed=ends[:4], expected=w)
             ends.remove(hit)
+    labels_extra = []
+    if shared is None and not case.get("_unnamed") and int(case_hash(case), 16) % 6 == 0:
+        # the command-line path: the reconciliation written to a file (Newick strings with branch lengths, as a
+        # hand-written file may have) and drawn with `superrec2 draw ... tikz` shows the same events
+        _cli_draw(case, inst, counts, out)
+        labels_extra.append("cli_draw")
     n_kinds = sum(1 for k in ("S", "D", "T") if counts[k])
-    labels = [f"labels={case['_label_kind']}", f"obj={min(len(inst.oleaves), 10)}"]
+    labels = [f"labels={case['_label_kind']}", f"obj={min(len(inst.oleaves), 10)}"] + labels_extra
     if counts["T"]:
         labels.append("transfer")
     if counts["L"]:
